@@ -320,20 +320,37 @@ func (w *SrvWorld) Start() {
 			w.K.Yield("cb:Permission", addrStr(client)+"|"+peer.String())
 			return !w.Mon.vetoed(addrStr(client), peer)
 		}
+		var rag turn.RelayAddressGenerator = w.Gen
+		if k := cfg.Extra["real_gen"]; k != 0 {
+			// one of the bundled generators over simnet instead of the harness's own: what the
+			// server does with a real generator's sockets, ports and failures
+			tr := &SimTransport{N: w.Net, Role: "relay", Owner: "srv", IP4: w.Gen.IP4, IP6: w.Gen.IP6}
+			tr.OnDial = func(la *net.TCPAddr, c *TCPConn) {
+				if la != nil && !w.K.Free {
+					w.Mon.OutboundDialed(akey(la.IP, la.Port), c)
+				}
+			}
+			if k == 1 {
+				rag = &turn.RelayAddressGeneratorStatic{RelayAddress: w.Gen.IP4, Address: w.Gen.IP4.String(), Net: tr}
+			} else {
+				rag = &turn.RelayAddressGeneratorPortRange{RelayAddress: w.Gen.IP4, Address: w.Gen.IP4.String(), Net: tr,
+					MinPort: 50000, MaxPort: uint16(50000 + k), MaxRetries: 10}
+			}
+		}
 		if cfg.Listener == "tcp" {
 			l, err := w.Net.ListenTCP("listener", "srv", ip, 3478)
 			if err != nil {
 				Fatalf("listen tcp: %v", err)
 			}
 			w.srvLn = l
-			sc.ListenerConfigs = []turn.ListenerConfig{{Listener: l, RelayAddressGenerator: w.Gen, PermissionHandler: ph}}
+			sc.ListenerConfigs = []turn.ListenerConfig{{Listener: l, RelayAddressGenerator: rag, PermissionHandler: ph}}
 		} else {
 			s, err := w.Net.ListenUDP("listener", "srv", ip, 3478)
 			if err != nil {
 				Fatalf("listen udp: %v", err)
 			}
 			w.srvSock = s
-			sc.PacketConnConfigs = []turn.PacketConnConfig{{PacketConn: s, RelayAddressGenerator: w.Gen, PermissionHandler: ph}}
+			sc.PacketConnConfigs = []turn.PacketConnConfig{{PacketConn: s, RelayAddressGenerator: rag, PermissionHandler: ph}}
 		}
 		defer close(w.started)
 		if cfg.Nonce != "" && cfg.Nonce != "server" && w.srvSock != nil {
